@@ -12,6 +12,8 @@ LEAN_DRIVERS = ["C30"]
 THEOREMS = [
     "RedunModel.C30.fresh_after_op",
     "RedunModel.C30.fresh_after_ops",
+    "RedunModel.C30.open_hook_iff_writable",
+    "RedunModel.C30.open_mode_table",
     "RedunModel.C30.valid_iff",
     "RedunModel.C30.valid_after_fresh",
     "RedunModel.C30.immutable_always_valid",
@@ -44,6 +46,8 @@ ASSUMPTIONS = [
     "universe of 23 file paths under 3 top-level directories with one real and one symlinked sub-directory each",
     "Dir.rmdir is exercised with recursive=True only; Dir.copy_to between non-overlapping or identical directories",
     "FileSet patterns are `<dir>/*` and `<dir>/**`",
+    "File.open: ASCII payloads, one write at position 0 of the returned stream; exclusive-creation modes only on the two "
+    "root-level files (LocalFileSystem creates parent directories for w/a modes only)",
     "integer mtimes (set explicitly); two writes may deliberately receive the same mtime",
     "ContentDir hashes its members by size/mtime (FileSystem.iter_file_hashes iterates the plain Dir): mirrored in the "
     "model and stated as a remark (content_dir_by_stat_note); the oracle's content-only clause covers ContentFile and "
@@ -54,6 +58,8 @@ ASSUMPTIONS = [
     "different such states give different hashes (within one generated case)",
 ]
 RULE = ("op sequences (6-14 ops) over 3-7 objects of the 9 file classes + Staging values in a temp dir: write/append/"
+        "open(mode) in all spellings of r, r+, w, w+, a, a+, x, x+ with b/t (written through the stream; context manager or "
+        "close) /"
         "remove/touch/copy_to/stage/unstage/mkdir/rmdir/Dir.copy_to/StagingDir.stage, hash/update_hash/is_valid/pickle "
         "round trip, and external writes/removes; after every op the cached and the freshly computed hash pre-image of "
         "every object is compared with the model, and the property oracle (fresh after write/copy/stage; is_valid <-> hash "
@@ -92,7 +98,12 @@ def prepare_tree(w):
         os.makedirs(os.path.join(w.ext, "L" + d[0]))
         w.link(d + ("l",), os.path.join(w.ext, "L" + d[0]))
     w.xwrite(("d1", ".h"), b"hidden", 900)
-REDUN_WRITES = {"write", "append", "copy", "stage", "unstage", "mkdir", "rmdir", "dcopy", "dstage", "dunstage"}
+MODES_READ = ["r", "rb", "rt"]
+MODES_UPDATE = ["r+", "r+b", "rb+", "r+t"]
+MODES_WRITE = ["w", "wb", "wt", "w+", "w+b", "wb+", "a", "ab", "a+", "a+b", "ab+"]
+MODES_EXCL = ["x", "xb", "x+", "xb+"]          # no _ensure_dir for x: only generated for the root-level files f, g
+ASCII = [b"", b"a", b"b", b"ab", b"ba", b"abc", b"hello world"]
+REDUN_WRITES = {"open", "write", "append", "copy", "stage", "unstage", "mkdir", "rmdir", "dcopy", "dstage", "dunstage"}
 
 
 # ---------------------------------------------------------------------- generator
@@ -155,8 +166,18 @@ def gen_case(rng, nops):
             ops.append(("valid", i))
         elif k < 0.34 and nonst:
             ops.append(("reload", rng.choice(nonst)))
-        elif k < 0.46 and files:
+        elif k < 0.40 and files:
             ops.append((rng.choice(["write", "write", "append"]), rng.choice(files), rng.choice(DATA), tick()))
+        elif k < 0.46 and files:
+            # File.open(mode) in every spelling, written through the returned stream; often right after the hash was cached
+            f = rng.choice(files)
+            roots = [j for j in files if len(specs[j][2]) == 1]
+            mode = rng.choice(MODES_UPDATE * 3 + MODES_WRITE + MODES_READ + (MODES_EXCL if roots else []))
+            if mode in MODES_EXCL:
+                f = rng.choice(roots)
+            if rng.random() < 0.6:
+                ops.append(("hash", f))
+            ops.append(("open", f, mode, rng.choice(ASCII), tick(), rng.random() < 0.5))
         elif k < 0.50 and files:
             ops.append(("remove", rng.choice(files)))
         elif k < 0.54 and files:
@@ -215,6 +236,12 @@ CORPUS = [
     [("new", ("dir", "plain", ("d1",))), ("new", ("dir", "content", ("d2",))), ("new", ("file", "plain", ("d1", "l", "a"))),
      ("write", 2, b"ab", 1001), ("hash", 0), ("xwrite", ("d1", "l", "a"), b"abc", 1002), ("valid", 0), ("update", 0), ("xremove", ("d1", "l", "a")),
      ("valid", 0), ("dcopy", 0, 1, False, 1003), ("valid", 1), ("xwrite", ("d2", "l", "c"), b"c", 1004), ("valid", 1), ("rmdir", 0), ("valid", 0)],
+    # File.open in update modes: in-place write through the stream, hash cached before
+    [("new", ("file", "plain", ("f",))), ("new", ("file", "content", ("f",))), ("write", 0, b"abc", 1001), ("hash", 1),
+     ("open", 0, "r+", b"x", 1002, True), ("valid", 0), ("open", 1, "r+b", b"yz", 1003, False), ("valid", 1), ("hash", 0),
+     ("open", 0, "rb+", b"", 1004, True), ("valid", 0), ("open", 1, "rb", b"", 1005, True), ("valid", 1),
+     ("open", 0, "x", b"q", 1006, True), ("remove", 0), ("open", 1, "r+", b"q", 1007, True), ("open", 1, "xb", b"new", 1008, False),
+     ("valid", 1), ("open", 0, "a+", b"!", 1009, True), ("valid", 0), ("open", 0, "w+b", b"", 1010, False), ("valid", 0)],
     # immutable classes
     [("new", ("file", "imm", ("f",))), ("new", ("dir", "imm", ("d1",))), ("new", ("fset", "imm", ("d1",), True)),
      ("hash", 0), ("hash", 1), ("hash", 2), ("xwrite", ("f",), b"a", 1001), ("xwrite", ("d1", "a"), b"a", 1001),
@@ -243,6 +270,8 @@ def model_line(op):
         return "(%s i%d)" % (k, op[1])
     if k in ("write", "append"):
         return "(%s i%d b%s i%d)" % (k, op[1], op[2].hex(), op[3])
+    if k == "open":
+        return "(open i%d s%s b%s i%d)" % (op[1], op[2].encode().hex(), op[3].hex(), op[4])
     if k == "touch":
         return "(touch i%d i%d)" % (op[1], op[2])
     if k in ("copy", "dcopy"):
@@ -260,6 +289,9 @@ def target(op):
     k = op[0]
     if k in ("write", "append", "mkdir", "rmdir", "stage", "dstage"):
         return op[1]
+    if k == "open":
+        # the harness's own reading of "written through redun": the mode permits writing
+        return op[1] if set(op[2]) & set("wax+") else None
     if k in ("copy", "unstage", "dcopy", "dunstage"):
         return op[2]
     return None
@@ -307,6 +339,19 @@ def do_op(w, objs, op):
         if k in ("write", "append"):
             w.clock = op[3]
             objs[op[1]].write(op[2], mode="wb" if k == "write" else "ab")
+            return "ok"
+        if k == "open":
+            w.clock = op[4]
+            mode, data = op[2], op[3]
+            payload = data if "b" in mode else data.decode("ascii")
+            writes = bool(set(mode) & set("wax+"))
+            if op[5]:
+                with objs[op[1]].open(mode) as f:
+                    f.write(payload) if writes else f.read()
+            else:
+                f = objs[op[1]].open(mode)
+                f.write(payload) if writes else f.read()
+                f.close()
             return "ok"
         if k == "remove":
             objs[op[1]].remove()
